@@ -34,13 +34,23 @@ CLAIMED["C16"] = {
             "refine one store on histories with fresh attempt ids and owner-addressed settle/fail; Coq witnesses "
             "show they differ otherwise (known findings C16-F1..F3). Model tied to the real KVStore (bbolt) and "
             "SQLStore (sqlite) by answer-by-answer differential runs of the same seeded histories, a "
-            "model-independent predicate on each backend's trace and a direct KV-vs-SQL comparison.",
-    "note": "Trusted: Coq kernel, harness, python driver, bbolt/sqlite transaction atomicity (one model step per "
-            "API call). Refinement is partial (discipline hypothesis). Concurrent callers are covered through "
-            "linearisation only (theorems quantify over all op orders); no concurrent harness. uint64 wrap excluded "
-            "by a stated domain guard. Fees, sequence index, bulk DeletePayments not modelled.",
-    "technique": "Coq proof (invariant by induction over op histories, two-backend refinement) + three-way "
-                 "differential correspondence KV/SQL/model",
+            "model-independent predicate on each backend's trace and a direct KV-vs-SQL comparison. Concurrency: "
+            "seeded programs of 2-4 goroutines (barrier start, global atomic clock) run on both real stores; every "
+            "recorded history must be linearisable to the Coq model (WGL search on the extracted step; each witness "
+            "order re-validated by the Coq kernel; checker proved sound w.r.t. Herlihy-Wing linearisability), so the "
+            "all-histories theorems apply to the concurrent runs; model-independent safety predicates (never overpay, "
+            "single successful Init between Fail/Delete, Succeeded final, single resolution) on the concurrent traces.",
+    "note": "Trusted: Coq kernel, harness, python driver; for a 'not linearisable' verdict also Coq extraction + "
+            "ocaml/c16_lin.ml (positive verdicts are kernel-checked; extraction cross-checked against vm_compute on "
+            "the sequential and on perturbed histories). Refinement is partial (discipline hypothesis). Concurrent "
+            "schedules are those the Go scheduler / bbolt batcher / sqlite lock produce (sampled, not enumerated); "
+            "linearisability is checked on disciplined programs, undisciplined ones only through the safety "
+            "predicates; sqlite only (no postgres), no -race. A returned sqlite serialization/busy/retries-exceeded "
+            "error counts as 'did not happen' (ExecTx rolls back; none observed). uint64 wrap excluded by a stated "
+            "domain guard. Fees, sequence index, bulk DeletePayments not modelled.",
+    "technique": "Coq proof (invariant by induction over op histories, two-backend refinement, soundness of the "
+                 "linearisation-witness checker) + three-way differential correspondence KV/SQL/model + "
+                 "linearisability checking of concurrent runs against the extracted Coq model",
 }
 
 _CHAN_NOTE = ("Trusted: Coq kernel, Go harness (harness-owned FIFOs over two real LightningChannels from "
